@@ -537,13 +537,28 @@ func init() {
 	intrinsics["(*io.PipeWriter).Close"] = nilErr
 	intrinsics["(*os.Process).Kill"] = nilErr
 	for _, n := range []string{"runtime.LockOSThread", "runtime.UnlockOSThread", "runtime.Gosched",
-		"runtime.GC", "(*sync.Pool).Put", "(*sync.WaitGroup).Add", "(*sync.WaitGroup).Done", "(*sync.WaitGroup).Wait"} {
+		"runtime.GC", "(*sync.WaitGroup).Add", "(*sync.WaitGroup).Done", "(*sync.WaitGroup).Wait"} {
 		intrinsics[n] = nop
+	}
+	// sync.Pool: Put remembers the value; Get may hand out the value put last (what a single goroutine usually
+	// observes) or a new one (always allowed): both are explored, the decision is a free symbolic bit.
+	intrinsics["(*sync.Pool).Put"] = func(e *Exec, fn *ssa.Function, args []Value, caller *Frame) (Value, *GoPanic) {
+		p := args[0].(Ptr)
+		if e.pooled == nil {
+			e.pooled = map[int][]Value{}
+		}
+		e.pooled[p.obj.id] = append(e.pooled[p.obj.id], args[1])
+		return nil, nil
 	}
 	intrinsics["(*sync.Pool).Get"] = func(e *Exec, fn *ssa.Function, args []Value, caller *Frame) (Value, *GoPanic) {
 		p := args[0].(Ptr)
-		st := p.obj
-		_ = st
+		if items := e.pooled[p.obj.id]; len(items) > 0 {
+			bit := e.newInput("pool-hands-out-the-last-put-value", BV(8))
+			if e.branch(e.ctx.Eq(bit, e.ctx.Const(8, 1)), nil) {
+				e.pooled[p.obj.id] = items[:len(items)-1]
+				return items[len(items)-1], nil
+			}
+		}
 		// field "New" is the last field of sync.Pool
 		pt := fn.Signature.Recv().Type().(*types.Pointer).Elem().Underlying().(*types.Struct)
 		for i := 0; i < pt.NumFields(); i++ {
